@@ -13,6 +13,7 @@ Gap_5 implements the TIER_REPAIR logic:
 from __future__ import annotations
 
 import math
+from decimal import Decimal, InvalidOperation
 from typing import TYPE_CHECKING, Any
 
 from octave_mcp.core.ast_nodes import Assignment, Block, Document, LiteralZoneValue, Section
@@ -211,6 +212,14 @@ def _attempt_type_coercion(
             # These are lossy conversions - original value cannot be recovered
             # e.g., "1e309" -> inf is lossy, "1e308" -> 1e308 is lossless
             if not math.isfinite(coerced):
+                return value, False
+
+            # Underflow and excess precision are lossy too: "1e-400" -> 0.0 and
+            # "0.10000000000000000001" -> 0.1 cannot be recovered from the float.
+            try:
+                if Decimal(value_stripped) != Decimal(repr(coerced)):
+                    return value, False
+            except InvalidOperation:
                 return value, False
 
         # Log the repair (I4 compliance)
